@@ -7,9 +7,11 @@ import (
 	"fmt"
 	"os"
 	"path/filepath"
+	"runtime"
 	"sort"
 	"strings"
 	"sync"
+	"time"
 
 	"github.com/aml-org/amf-custom-validator/pkg/config"
 	"github.com/aml-org/amf-custom-validator/verifrt"
@@ -382,6 +384,62 @@ func RacePass(rounds int) {
 			}
 			close(start)
 			wg.Wait()
+		}
+	}
+	// burst: many more concurrent callers than CPUs or any plausible pool size (a bounded resource taken twice on one
+	// call path, a full work queue, ... only bite above a threshold). Every call must return what it returns alone.
+	for _, n := range []int{17, 33, 65} {
+		want := Validate(c10Pa, c10Data(3))
+		got := make([]CallRes, n)
+		var wg sync.WaitGroup
+		start := make(chan struct{})
+		for i := 0; i < n; i++ {
+			wg.Add(1)
+			go func(i int) {
+				defer wg.Done()
+				<-start
+				if i%2 == 0 {
+					got[i] = Validate(c10Pa, c10Data(3))
+				} else {
+					got[i] = ValidateCompiled(c10SharedQ, c10Data(3))
+				}
+			}(i)
+		}
+		done := make(chan struct{})
+		go func() { wg.Wait(); close(done) }()
+		close(start)
+		// a hang is believed only on the runtime's own evidence (a goroutine parked for over a minute in the repository's
+		// code while nothing is running), never on elapsed time alone
+		finished := false
+		for waited := 0; waited < 12 && !finished; waited++ {
+			select {
+			case <-done:
+				finished = true
+			case <-time.After(90 * time.Second):
+				runtime.GC() // stamps the wait times
+				select {
+				case <-done:
+					finished = true
+				case <-time.After(75 * time.Second):
+					st := allStacks()
+					if fr := blockedInLibrary(st); fr != "" {
+						fmt.Printf("BURST HANG: %d concurrent calls have not all returned; nothing is running and a goroutine has been parked for over a minute in %s\n%s\nEND BURST HANG\n", n, fr, tailStr(st, 6000))
+						fmt.Println("racepass done")
+						os.Exit(0)
+					}
+				}
+			}
+		}
+		if !finished {
+			fmt.Printf("BURST SLOW: %d concurrent calls did not finish in the time allowed and are still computing; no verdict\n", n)
+			fmt.Println("racepass done")
+			os.Exit(0)
+		}
+		for i := range got {
+			if got[i].Report != want.Report || (got[i].Err == nil) != (want.Err == nil) {
+				fmt.Printf("BURST DIFF: call %d of %d concurrent calls returns something else than alone: %s\nEND BURST DIFF\n", i, n, firstDiff(want.Report, got[i].Report))
+				break
+			}
 		}
 	}
 	_ = verifrt.Active
